@@ -2,11 +2,11 @@
 import os
 from . import core, eng, gen, tiec, engcheck, tiea
 
-MODULES = ["AscentVerif.Props.C01", "AscentVerif.Props.TieD", "AscentVerif.Props.C01Plan", "AscentVerif.Props.C01Phys"]
+MODULES = ["AscentVerif.Props.C01", "AscentVerif.Props.TieD", "AscentVerif.Props.C01Plan", "AscentVerif.Props.C01Phys", "AscentVerif.Props.C01PhysPlan"]
 THEOREMS = ["versionsBase_eq", "versionsBase_covers", "versionsBase_skips_old", "run_sound", "run_complete", "run_eq_leastModel",
             "run_exit_closed", "run_rows_set", "idxGet_spec", "iterAll_spec", "clause_step", "join_step", "join_step_swapped", "index_selection_eq",
             "index_selection_sound_complete", "reordering_sound", "reordering_sound_evalBody", "head_rows_perm", "head_rows_perm_swapped", "guard_needed", "desugared_needed",
-            "runPhys_eq_leastModel", "ixSetsOf_covers", "tc_hyps"]
+            "runPhys_eq_leastModel", "ixSetsOf_covers", "tc_hyps", "planOk_ixSetsOf", "runPhys_compiled_eq_leastModel"]
 TRUSTED = ["Lean 4.33.0 kernel", "axioms: propext, Classical.choice, Quot.sound only (audited per theorem)",
            "statements: Spec/Datalog.lean (Derivable = least model) and Props/C01.lean",
            "tie D: versions_base is re-translated from ascent_mir.rs on every run (tools/rs2lean.py) and proved equal to Engine.versionsBase for all n (Props/TieD.lean versionsBase_eq)",
@@ -18,7 +18,8 @@ TRUSTED = ["Lean 4.33.0 kernel", "axioms: propext, Classical.choice, Quot.sound 
            "head update through insert_if_not_present, merges with the size-based swaps of C19's index models, plan-directed index_get / iter_all, the empty-relation guard, "
            "the len_estimate choice between the two copies of a reorderable simple join); Props/C01Phys.lean runPhys_eq_leastModel: it computes exactly the least model "
            "(forward simulation onto the nondeterministic engine of Proofs/NDEngine.lean) for desugared, well-scoped rules with a usable plan (planOk: decidable, evaluated by "
-           "the driver on every generated program; the count is in the evidence); tied by running every tie-B case through it as well (`eng runp`: rows with multiplicities and scc_iters)",
+           "the driver on every generated program; the count is in the evidence; Props/C01PhysPlan.lean planOk_ixSetsOf PROVES it for the plan and the index sets the compiler "
+           "model computes, for every program whose clauses have one argument per column: runPhys_compiled_eq_leastModel); tied by running every tie-B case through it as well (`eng runp`: rows with multiplicities and scc_iters)",
            "model Model/Engine.lean hand-written at MIR level after ascent_mir.rs / ascent_codegen.rs; index lookups are filters "
            "(hash indices themselves: C19); tied by compiling generated programs with the real macros and diffing relation contents "
            "(with multiplicities) and scc_iters against the Lean driver, plus an independent naive least-model oracle (tools/vlib/eng.py)",
